@@ -25,7 +25,7 @@ for sid in sys.argv[1:]:
                         t = re.sub(r'/tmp/seed[0-9]*_[A-Za-z0-9]+/nutype|/tmp/sv_\w+/nutype|/tmp/dc_\w+/nutype|/repo/nutype', p + '/nutype', t)
                         open(os.path.join(root, f), 'w').write(t)
             shutil.copy('/repo/Cargo.lock', os.path.join(demo, 'Cargo.lock'))
-        is_test = os.path.isdir(demo + '/tests') or 'test' in open(src + '/README.agent.md').read().lower()
+        is_test = os.path.isdir(demo + '/tests') or not os.path.exists(demo + '/src/main.rs')   # (a README that merely mentions tests does not make it a test demo)
         cmd = ('cargo test --offline' if is_test else 'cargo run --offline') + ' 2>&1 | tail -5; exit ${PIPESTATUS[0]}'
         set_path(wt); res['demo_with'] = sh(cmd, cwd=demo, env={'CARGO_TARGET_DIR': demo + '_t'})[0]
         set_path('/repo'); res['demo_without'] = sh(cmd, cwd=demo, env={'CARGO_TARGET_DIR': demo + '_t'})[0]
